@@ -4,7 +4,7 @@
    DUMP_TIMEOUT_MS come from Generated.v (translator output).  minimq, the broker and the clock are
    the environment (DESIGN.md). *)
 From Coq Require Import List NArith Arith.
-From MC Require Import Generated Mqtt Mqtt_proofs Mqtt_run.
+From MC Require Import Generated Mqtt Mqtt_proofs Mqtt_run Mqtt_live.
 Import ListNotations.
 
 (* for EVERY history of environments (connection losses, session resets, API calls, clock readings,
@@ -29,6 +29,24 @@ Theorem C13_monitor_clauses : forall e g m0 m1 o1, action_ok e g m0 m1 o1 ->
   (existsb is_proto o1 = true -> o1 = [OPub TAlive T_ONE true None None] \/ o1 = [OSub]).
 Proof. exact (fun e g m0 m1 o1 H => H). Qed.
 
+(* progress: the sequence is not only never violated but carried out — under a healthy environment
+   (connected, minimq accepts what it is handed, no API call, no request, no session reset) six
+   update() calls from Connect publish alive, subscribe, wait for the timer and dump every leaf *)
+Theorem C13_startup_progress : forall e1 e2 e3 e4 e5 e6 m,
+  healthy e1 -> healthy e2 -> healthy e3 -> healthy e4 -> healthy e5 -> healthy e6 ->
+  st m = Connect ->
+  (now e3 + DUMP_TIMEOUT_MS <= now e4)%N ->
+  (length (all_leaves e5) < slots e6)%nat ->
+  exists m1 m2 m3 m4 m5 m6,
+    step e1 m = Some (m1, [], false) /\ st m1 = Alive /\
+    step e2 m1 = Some (m2, [OPub TAlive T_ONE true None None], false) /\ st m2 = Subscribe /\
+    step e3 m2 = Some (m3, [OSub], false) /\ st m3 = Wait /\ timeout m3 = Some (now e3 + DUMP_TIMEOUT_MS)%N /\
+    step e4 m3 = Some (m4, [], false) /\ st m4 = Init /\
+    step e5 m4 = Some (m5, [], false) /\ st m5 = Multipart /\ pd m5 = pend0 (all_leaves e5) /\
+    step e6 m5 = Some (m6, flat_map (dump_msg e6 None) (all_leaves e5), false) /\ st m6 = Single /\ p_rem (pd m6) = [].
+Proof. exact startup_progress. Qed.
+Theorem C13_healthy_unfold : forall e, healthy e = (conn e = true /\ act_ok e = true /\ api e = ApiNone /\ poll e = NoMsg).
+Proof. reflexivity. Qed.
 (* the history variable is a function of the protocol transitions; any return to Connect clears it *)
 Theorem C13_epoch_restarts : forall t g s, g_trans t g s Connect = g0.
 Proof. exact g_trans_connect. Qed.
@@ -74,3 +92,5 @@ Print Assumptions C13_disconnected_restarts.
 Print Assumptions C13_session_reset_restarts.
 Print Assumptions C13_timeout_value.
 Print Assumptions C13_table_known.
+Print Assumptions C13_startup_progress.
+Print Assumptions C13_healthy_unfold.
